@@ -489,8 +489,42 @@ def run_case(rec, rng, spec):
         rec.nontriv(["expand", spec["pattern"], spec["chan_first"], bool(spec["nan"])], spec["seed"])
 
 
+def big_real_result(rec, seed):
+    """A result of the temporally pre-binned search (more than 1e6 candidate pairs), once with the larger
+    and once with the smaller set as secondary: structure, expand and collapse of what collocate() stores."""
+    from typhon.collocations import Collocator
+    from vt.models import colloc as M
+    from vt.props import c04
+    for n1, n2 in ((650, 1700), (1700, 650)):
+        g = {"cls": "threshold", "seed": seed + n1, "r_km": 5.0, "mi_ns": 60 * M.SEC, "tick_ns": M.SEC,
+             "region": "mid", "n1": n1, "n2": n2, "spread_km": 200.0, "span_ns": 30 * 60 * M.SEC}
+        p, s = M.gen_case(g)
+        np.random.seed(g["seed"] % 1000)
+        ds1 = c04.to_dataset(p, {"kind": "flat", "dim": "obs", "labels": "int"}, 1)
+        ds2 = c04.to_dataset(s, {"kind": "flat", "dim": "y", "labels": "str"}, 2)
+        res = Collocator().collocate(("MHS", ds1), ("AVHRR", ds2), max_interval=60, max_distance=5.0)
+        rec.ev()
+        rec.count("real.binned_collocate_inputs")
+        if res is None:
+            rec.count("real.binned_without_pairs")
+            continue
+        case = {"kind": "real-big", "gen": g, "seed": seed}
+        sv = collocmon.structure_violation(res)
+        if sv:
+            rec.violation("collocation-structure", case, dict(sv, sizes=[n1, n2]))
+            continue
+        check_expand(rec, res, case)
+        check_collapse(rec, res, case)
+        rec.nontriv(["real-big", n1, n2], seed)
+
+
 def run_shard(spec, rec):
     rng = rng_for(spec["seed"], "c13", spec["shard"])
+    if spec["shard"] % 4 == 0:
+        try:
+            big_real_result(rec, spec["seed"] * 1000 + spec["shard"])
+        except Exception as exc:
+            rec.inconc("harness error: %r %s" % (exc, traceback.format_exc()[-800:]))
     for i in range(spec["n"]):
         cs = gen_spec(rng)
         if i < 1:
@@ -539,5 +573,7 @@ def replay(case, rec):
         for ref in (None, A, B):
             for c in (None, "max", "first-view"):
                 check_collapse(rec, ds, case, reference=ref, collapser_name=c)
+    elif case.get("kind") == "real-big":
+        big_real_result(rec, case["seed"])
     elif case.get("kind") == "concat":
         check_concat(rec, [build_compact(s) for s in case["specs"]], case)
